@@ -6,6 +6,7 @@
 package main
 
 import (
+	"github.com/prometheus/client_golang/prometheus"
 	"bytes"
 	"encoding/json"
 	"errors"
@@ -483,6 +484,24 @@ func (h *vHarness) runHandover(sc vScenario, sk *hoSink) {
 	stopHammer := make(chan struct{})
 	var hw sync.WaitGroup
 	if sc.Mode == "hammer" {
+		// a scraper: the server-level collector is read the whole time, as the metrics endpoint does
+		hw.Add(1)
+		go func(sm *serverMetrics) {
+			defer hw.Done()
+			for {
+				select {
+				case <-stopHammer:
+					return
+				default:
+				}
+				ch := make(chan prometheus.Metric, 16)
+				sm.Collect(ch)
+				close(ch)
+				for range ch {
+				}
+				time.Sleep(200 * time.Microsecond)
+			}
+		}(h.srvMetrics)
 		for g := 0; g < 5; g++ {
 			hw.Add(1)
 			go func(g int) {
